@@ -30,7 +30,7 @@ struct Counts {
     inline_changes: u64,
 }
 
-fn check<'a, T: DiffableStr + ?Sized>(d: &'a TextDiff<'a, 'a, 'a, T>, dl: Dl, far: Instant) -> (Vec<(&'static str, String)>, Counts) {
+fn check<'a, T: DiffableStr + ?Sized>(d: &'a TextDiff<'a, 'a, 'a, T>, dl: Dl, far: Instant, u2028_breaks: bool) -> (Vec<(&'static str, String)>, Counts) {
     let mut fails: Vec<(&'static str, String)> = Vec::new();
     let mut counts = Counts { emphasised: 0, replace_ops: 0, inline_changes: 0 };
     let past = Instant::now().checked_sub(Duration::from_secs(5)).unwrap_or_else(Instant::now);
@@ -72,7 +72,7 @@ fn check<'a, T: DiffableStr + ?Sized>(d: &'a TextDiff<'a, 'a, 'a, T>, dl: Dl, fa
                     if op.tag() != DiffTag::Replace || ic.tag() == ChangeTag::Equal {
                         fails.push(("inline.emphasis_outside_replace", format!("op #{} {:?} change #{} ({:?}) has an emphasised segment {}", oi, op, k, ic.tag(), show(bytes))));
                     }
-                    if bytes.iter().any(|b| *b == b'\n' || *b == b'\r') {
+                    if bytes.iter().any(|b| *b == b'\n' || *b == b'\r') || (u2028_breaks && bytes.windows(3).any(|w| w == [0xE2, 0x80, 0xA8])) {
                         fails.push(("inline.emphasised_line_break", format!("op #{} change #{}: emphasised segment {} contains a line break", oi, k, show(bytes))));
                     }
                 }
@@ -100,12 +100,13 @@ fn case(a: &[u8], b: &[u8], alg: Algorithm, dls: &[Dl], out: &mut Local) {
 fn case_nl(a: &[u8], b: &[u8], alg: Algorithm, dls: &[Dl], nl_override: u8, out: &mut Local) {
     let valid = std::str::from_utf8(a).is_ok() && std::str::from_utf8(b).is_ok();
     let far = far_deadline();
-    for as_str in [false, true] {
+    for ty in 0..3u8 {
+        let as_str = ty >= 1;
         if as_str && !valid {
             continue;
         }
         for &dl in dls {
-            let ctx = || format!("alg={} type={} inline deadline={:?} newline_terminated override={} old={} new={}", alg_name(alg), if as_str { "str" } else { "[u8]" }, dl, ["none", "true", "false"][nl_override as usize], show(a), show(b));
+            let ctx = || format!("alg={} type={} inline deadline={:?} newline_terminated override={} old={} new={}", alg_name(alg), ["[u8]", "str", "OddStr (user-defined: case-insensitive Eq, U+2028 also ends a line, len/slice in characters)"][ty as usize], dl, ["none", "true", "false"][nl_override as usize], show(a), show(b));
             out.eval();
             let r = guard(|| {
                 let mut c = TextDiff::configure();
@@ -120,12 +121,18 @@ fn case_nl(a: &[u8], b: &[u8], alg: Algorithm, dls: &[Dl], nl_override: u8, out:
                     }
                     _ => {}
                 }
-                if as_str {
+                if ty == 2 {
+                    // per-occurrence letter case: tokens that are equal for the type differ in bytes
+                    let ra = crate::odd_str::oddify(std::str::from_utf8(a).unwrap(), a.len() as u64);
+                    let rb = crate::odd_str::oddify(std::str::from_utf8(b).unwrap(), b.len() as u64 + 77);
+                    let d = c.diff_lines(crate::odd_str::OddStr::new(&ra), crate::odd_str::OddStr::new(&rb));
+                    check(&d, dl, far, true)
+                } else if as_str {
                     let d = c.diff_lines(std::str::from_utf8(a).unwrap(), std::str::from_utf8(b).unwrap());
-                    check(&d, dl, far)
+                    check(&d, dl, far, false)
                 } else {
                     let d = c.diff_lines(a, b);
-                    check(&d, dl, far)
+                    check(&d, dl, far, false)
                 }
             });
             vh::set_clock(vh::Clock::Off);
@@ -136,7 +143,7 @@ fn case_nl(a: &[u8], b: &[u8], alg: Algorithm, dls: &[Dl], nl_override: u8, out:
                     out.count_n("replace_ops_observed", counts.replace_ops);
                     out.count_n("inline_changes_observed", counts.inline_changes);
                     if counts.emphasised > 0 {
-                        out.nontrivial(&(alg_name(alg), a, b, as_str));
+                        out.nontrivial(&(alg_name(alg), a, b, ty));
                     }
                     for (code, msg) in fails.into_iter().take(4) {
                         out.violation(code, format!("{} | {}", msg, ctx()));
